@@ -210,6 +210,9 @@ def gx(e, env):
             fail("comprehension shape", e)
         gen = e.generators[0]
         it, ity = gx(gen.iter, env)
+        # [list(g) for g in groups]: every group copied into a fresh list (a tuple / array becomes a list of its entries)
+        if ity == "G" and not gen.ifs and ast.unparse(e.elt) == f"list({gen.target.id})":
+            return f"map py_listify {it}", "G"
         if ity != "L":
             fail("comprehension over something that is not a list of entries", e)
         v = gen.target.id
